@@ -560,3 +560,23 @@ package db
 //@   ensures err != nil
 //@   modifies failed
 //@   tags C07
+//@
+//@ // a unique index is left alone by an update only when every one of its fields was looked at and none changed
+//@ extern (db.CollectionIndex).Description(i) -> (d)
+//@   pure
+//@   nodefault
+//@ extern (*client.FieldValue).NormalValue(v) -> (n)
+//@   pure
+//@   nodefault
+//@ extern (client.NormalValue).Equal(a, b) -> (r)
+//@   pure
+//@   nodefault
+//@ func isUpdatingIndexedFields -> (r)
+//@   requires !failed
+//@   ensures !r ==> exhausted(1)
+//@   loop 1 ranges res(Description, 1, 0).Fields
+//@   assert before call#1 GetValue: arg0 == oldDoc && arg1 == rangeslice1[rangeindex1+1].Name
+//@   assert before call#2 GetValue: arg0 == newDoc && arg1 == indexedFields.Name
+//@   tolerates call#1 GetValue "an error means that the field has never been set on the old version of the document (handled by the case split)"
+//@   tolerates call#2 GetValue "an error means that the field is not set on the new version either (handled by the case split)"
+//@   tags C07
